@@ -26,11 +26,22 @@ theorem keyOK_eq_inRange (start : Bytes) (end_ : Option Bytes) (k : Bytes) :
     | false => simp
     | true => simp [ble_of_blt hlt]
 
-theorem BIter.valid_eq (it : BIter) : it.valid = (match it.cur with
-    | some e => keyOK it.start it.end_ e.1
-    | none => false) := rfl
+/-- positioned by `Rewind`/`Seek` (neither `fresh` nor `done`). -/
+def BIter.Clean (it : BIter) : Prop := it.fresh = false ∧ it.done = false
 
-theorem BIter.drain_forward {it : BIter} (hrev : it.reverse = false) {fuel : Nat}
+theorem BIter.valid_eq {it : BIter} (hc : it.Clean) : it.valid = (match it.cur with
+    | some e => keyOK it.start it.end_ e.1
+    | none => false) := by
+  unfold BIter.valid
+  rw [hc.1, hc.2]
+  rfl
+
+theorem BIter.valid_none {it : BIter} (hp : it.pos = none) : it.valid = false := by
+  unfold BIter.valid BIter.cur
+  rw [hp]
+  split <;> rfl
+
+theorem BIter.drain_forward {it : BIter} (hrev : it.reverse = false) (hc : it.Clean) {fuel : Nat}
     (hf : it.restF.length ≤ fuel) :
     BIter.drain fuel it = it.restF.takeWhile (fun e => keyOK it.start it.end_ e.1) := by
   induction fuel generalizing it with
@@ -40,7 +51,7 @@ theorem BIter.drain_forward {it : BIter} (hrev : it.reverse = false) {fuel : Nat
   | succ n ih =>
     cases hp : it.pos with
     | none =>
-      simp [BIter.drain, BIter.valid, BIter.cur, BIter.restF, hp]
+      simp [BIter.drain, BIter.valid_none hp, BIter.restF, hp]
     | some i =>
       by_cases hi : i < it.all.length
       · have hrest : it.restF = it.all[i] :: it.all.drop (i + 1) := by
@@ -48,10 +59,11 @@ theorem BIter.drain_forward {it : BIter} (hrev : it.reverse = false) {fuel : Nat
         have hcur : it.cur = some it.all[i] := by simp [BIter.cur, hp, List.getElem?_eq_getElem hi]
         rw [hrest, List.takeWhile_cons]
         by_cases hv : keyOK it.start it.end_ it.all[i].1 = true
-        · have hvalid : it.valid = true := by rw [BIter.valid_eq, hcur]; exact hv
+        · have hvalid : it.valid = true := by rw [BIter.valid_eq hc, hcur]; exact hv
           let it' : BIter := { it with pos := if i + 1 < it.all.length then some (i + 1) else none }
           have hnext : it.next.1 = it' := by
-            simp [BIter.next, BIter.uNext, hp, hrev, it']
+            simp [BIter.next, BIter.uNext, hp, hrev, it', hc.1, hc.2]
+          have hc' : it'.Clean := hc
           have hrest' : it'.restF = it.all.drop (i + 1) := by
             simp only [BIter.restF, it']
             by_cases h2 : i + 1 < it.all.length
@@ -60,16 +72,16 @@ theorem BIter.drain_forward {it : BIter} (hrev : it.reverse = false) {fuel : Nat
           have hlen : it'.restF.length ≤ n := by
             rw [hrest']; rw [hrest] at hf; simp at hf ⊢; omega
           simp only [BIter.drain, hvalid, if_true, hnext, hv]
-          rw [ih (it := it') hrev hlen, hrest']
+          rw [ih (it := it') hrev hc' hlen, hrest']
           simp [BIter.key, BIter.value, hcur, it']
         · have hvalid : it.valid = false := by
-            rw [BIter.valid_eq, hcur]; simpa using hv
+            rw [BIter.valid_eq hc, hcur]; simpa using hv
           simp [BIter.drain, hvalid, hv]
       · have hrest : it.restF = [] := by
           simp only [BIter.restF, hp]; exact List.drop_eq_nil_of_le (Nat.le_of_not_lt hi)
         have hcur : it.cur = none := by
           simp [BIter.cur, hp, List.getElem?_eq_none (Nat.le_of_not_lt hi)]
-        simp [BIter.drain, BIter.valid, hcur, hrest]
+        simp [BIter.drain, BIter.valid_eq hc, hcur, hrest]
 
 theorem drop_findGE (ents : List Entry) (k : Bytes) :
     ents.drop (findGE ents k) = ents.dropWhile (fun e => blt e.1 k) := by
@@ -93,6 +105,18 @@ theorem BIter.bSeek_fields (it : BIter) (k : Bytes) :
   split
   · exact ⟨rfl, rfl, rfl, rfl⟩
   · split <;> exact ⟨rfl, rfl, rfl, rfl⟩
+
+theorem BIter.bSeek_clean {it : BIter} (hc : it.Clean) (k : Bytes) : (it.bSeek k).Clean := by
+  unfold BIter.bSeek
+  split
+  · exact hc
+  · split <;> exact hc
+
+theorem BIter.uNext_clean {it : BIter} (hc : it.Clean) : it.uNext.Clean := by
+  unfold BIter.uNext
+  cases it.pos with
+  | none => exact hc
+  | some i => simp only; split <;> exact hc
 
 /-- after `Seek(start)` a forward badger iterator stands on the first key ≥ `start`. -/
 theorem BIter.bSeek_restF {it : BIter} (hrev : it.reverse = false) (k : Bytes) :
@@ -166,25 +190,23 @@ theorem sorted_drop_take {m : Map} (hs : Sorted m) (lo : Bytes) (hi : Option Byt
 /-- **forward badger scan** (repaired code): exactly the in-range entries, ascending. -/
 theorem BIter.scan_forward {m : Map} (hs : Sorted m) (start : Bytes) (end_ : Option Bytes) :
     (BIter.mk' m start end_ false).scan = range m start (effEnd start end_) := by
-  let it0 : BIter := { all := m, start := start, end_ := effEnd start end_, reverse := false, pos := none }
-  have hmk : BIter.mk' m start end_ false = it0.bSeek start := by simp [BIter.mk', BIter.rewind, it0]
+  let it0 : BIter := { all := m, start := start, end_ := effEnd start end_, reverse := false, pos := none,
+                       fresh := false, done := false }
+  have hc0 : it0.Clean := ⟨rfl, rfl⟩
+  have hrw : (BIter.mk' m start end_ false).rewind.1 = it0.bSeek start := rfl
   obtain ⟨hr1, ha1, hs1, he1⟩ := BIter.bSeek_fields it0 start
-  have hr1' : (it0.bSeek start).reverse = false := hr1
-  have hrw : (it0.bSeek start).rewind.1 = (it0.bSeek start).bSeek start := by
-    unfold BIter.rewind
-    rw [hr1']
-    simp only [Bool.false_eq_true, if_false]
-    rw [hs1]
-  obtain ⟨hr2, ha2, hs2, he2⟩ := BIter.bSeek_fields (it0.bSeek start) start
-  have hrest := BIter.bSeek_restF (it := it0.bSeek start) hr1' start
-  have hlen : ((it0.bSeek start).bSeek start).restF.length ≤ (it0.bSeek start).all.length + 1 := by
+  have hrest := BIter.bSeek_restF (it := it0) rfl start
+  have hlen : (it0.bSeek start).restF.length ≤ (BIter.mk' m start end_ false).all.length + 1 := by
     rw [hrest]
-    have := (List.dropWhile_sublist (fun e : Entry => blt e.1 start) (l := (it0.bSeek start).all)).length_le
+    have := (List.dropWhile_sublist (fun e : Entry => blt e.1 start) (l := it0.all)).length_le
+    show _ ≤ m.length + 1
+    have h2 : it0.all.length = m.length := rfl
     omega
   unfold BIter.scan
-  rw [hmk, hrw, BIter.drain_forward (by rw [hr2]; exact hr1') hlen, hrest, hs2, he2, hs1, he1, ha1]
+  rw [hrw, BIter.drain_forward hr1 (BIter.bSeek_clean hc0 start) hlen, hrest, hs1, he1]
   have : (fun e : Entry => keyOK start (effEnd start end_) e.1) = (fun e => inRange start (effEnd start end_) e.1) := by
     funext e; exact keyOK_eq_inRange _ _ _
+  show List.takeWhile (fun e => keyOK start (effEnd start end_) e.1) (List.dropWhile (fun e => blt e.1 start) m) = _
   rw [this]
   exact sorted_drop_take hs start (effEnd start end_)
 
@@ -233,7 +255,7 @@ theorem BIter.uNext_restR {it : BIter} (hrev : it.reverse = true) (hok : it.PosO
       show j' < it.all.length
       omega
 
-theorem BIter.drain_reverse {it : BIter} (hrev : it.reverse = true) (hok : it.PosOK) {fuel : Nat}
+theorem BIter.drain_reverse {it : BIter} (hrev : it.reverse = true) (hc : it.Clean) (hok : it.PosOK) {fuel : Nat}
     (hf : it.restR.length ≤ fuel) :
     BIter.drain fuel it = it.restR.takeWhile (fun e => keyOK it.start it.end_ e.1) := by
   induction fuel generalizing it with
@@ -242,21 +264,21 @@ theorem BIter.drain_reverse {it : BIter} (hrev : it.reverse = true) (hok : it.Po
     simp [BIter.drain, this]
   | succ n ih =>
     cases hp : it.pos with
-    | none => simp [BIter.drain, BIter.valid, BIter.cur, BIter.restR, hp]
+    | none => simp [BIter.drain, BIter.valid_none hp, BIter.restR, hp]
     | some i =>
       have hi := hok i hp
       obtain ⟨hr, hcur⟩ := BIter.restR_cons hp hi
       obtain ⟨hr', hok', hrev', _, hs', he'⟩ := BIter.uNext_restR hrev hok
       rw [hr, List.takeWhile_cons]
       by_cases hv : keyOK it.start it.end_ it.all[i].1 = true
-      · have hvalid : it.valid = true := by rw [BIter.valid_eq, hcur]; exact hv
-        have hnext : it.next.1 = it.uNext := by simp [BIter.next, hp]
+      · have hvalid : it.valid = true := by rw [BIter.valid_eq hc, hcur]; exact hv
+        have hnext : it.next.1 = it.uNext := by simp [BIter.next, hp, hc.1, hc.2]
         have hlen : it.uNext.restR.length ≤ n := by
           rw [hr', hr]; rw [hr] at hf; simp at hf ⊢; omega
         simp only [BIter.drain, hvalid, if_true, hnext, hv]
-        rw [ih hrev' hok' hlen, hr', hr, hs', he']
+        rw [ih hrev' (BIter.uNext_clean hc) hok' hlen, hr', hr, hs', he']
         simp [BIter.key, BIter.value, hcur]
-      · have hvalid : it.valid = false := by rw [BIter.valid_eq, hcur]; simpa using hv
+      · have hvalid : it.valid = false := by rw [BIter.valid_eq hc, hcur]; simpa using hv
         simp [BIter.drain, hvalid, hv]
 
 theorem take_countLE (all : List Entry) (k : Bytes) :
@@ -414,6 +436,15 @@ theorem BIter.seekLast_fields (it : BIter) :
     · exact hb
   · exact hb
 
+theorem BIter.seekLast_clean {it : BIter} (hc : it.Clean) : it.seekLast.Clean := by
+  unfold BIter.seekLast
+  simp only
+  split
+  · split
+    · exact BIter.uNext_clean (BIter.bSeek_clean hc _)
+    · exact BIter.bSeek_clean hc _
+  · exact BIter.bSeek_clean hc _
+
 theorem BIter.seekLast_some {it : BIter} {e : Bytes} (hend : it.end_ = some e) :
     it.seekLast = (match (it.bSeek e).cur with
                    | some c => if c.1 = e then (it.bSeek e).uNext else it.bSeek e
@@ -496,94 +527,89 @@ theorem BIter.seekLast_restR_some {it : BIter} (hrev : it.reverse = true) (hs : 
           simpa using this
       rw [List.filter_eq_self.mpr hall]
 
+/-- what a reverse iterator will visit after `seekLast`: the in-range entries, descending. -/
+theorem BIter.seekLast_walk {it : BIter} (hrev : it.reverse = true) (hs : Sorted it.all) :
+    it.seekLast.PosOK ∧
+      it.seekLast.restR.takeWhile (fun e => keyOK it.start it.end_ e.1)
+        = (range it.all it.start it.end_).reverse := by
+  cases hend : it.end_ with
+  | none =>
+    rw [BIter.seekLast_none hend]
+    obtain ⟨hr, hok⟩ := BIter.bSeek_nil_restR (it := it) hrev
+    rw [hr]
+    refine ⟨hok, ?_⟩
+    have : (fun e : Entry => keyOK it.start none e.1) = (fun x => ble it.start x.1) := by
+      funext x; simp [keyOK, checkKey, belowUpper]
+    rw [this, reverse_takeWhile_ge hs]
+    congr 1
+    all_goals (unfold range; apply List.filter_congr; intro x _; simp [inRange, belowUpper])
+  | some e =>
+    by_cases hee : e.isEmpty = true
+    · -- an explicit empty (non-nil) end bound: nothing is below it
+      have he0 : e = [] := List.isEmpty_iff.mp hee
+      subst he0
+      have hfalse : ∀ k, keyOK it.start (some []) k = false := by
+        intro k; simp [keyOK, belowUpper]
+      have hrange : range it.all it.start (some []) = [] := by
+        unfold range
+        apply List.filter_eq_nil_iff.mpr
+        intro x _; simp [inRange, belowUpper]
+      rw [hrange]
+      have hok : it.seekLast.PosOK := by
+        obtain ⟨_, hokn⟩ := BIter.bSeek_nil_restR (it := it) hrev
+        have hsl : it.seekLast = it.bSeek [] ∨ it.seekLast = (it.bSeek []).uNext := by
+          rw [BIter.seekLast_some hend]
+          cases (it.bSeek []).cur with
+          | none => exact Or.inl rfl
+          | some c =>
+            by_cases hc : c.1 = []
+            · exact Or.inr (if_pos hc)
+            · exact Or.inl (if_neg hc)
+        rcases hsl with h | h
+        · rw [h]; exact hokn
+        · rw [h]
+          exact (BIter.uNext_restR (it := it.bSeek [])
+            (by rw [(BIter.bSeek_fields _ _).1]; exact hrev) hokn).2.1
+      refine ⟨hok, ?_⟩
+      cases it.seekLast.restR with
+      | nil => rfl
+      | cons a L => simp [List.takeWhile_cons, hfalse]
+    · have hee' : e.isEmpty = false := by simpa using hee
+      obtain ⟨hr, hok⟩ := BIter.seekLast_restR_some (it := it) hrev hs hend hee'
+      refine ⟨hok, ?_⟩
+      rw [hr]
+      have hF : Sorted (it.all.filter (fun x => blt x.1 e)) := hs.filter _
+      have hcongr : ((it.all.filter (fun x => blt x.1 e)).reverse).takeWhile (fun x => keyOK it.start (some e) x.1)
+          = ((it.all.filter (fun x => blt x.1 e)).reverse).takeWhile (fun x => ble it.start x.1) := by
+        apply takeWhile_congr_mem
+        intro x hx
+        have hlt : blt x.1 e = true := (List.mem_filter.mp (List.mem_reverse.mp hx)).2
+        simp [keyOK, checkKey, belowUpper, hlt, ble_of_blt hlt]
+      rw [hcongr, reverse_takeWhile_ge hF, List.filter_filter]
+      congr 1
+      all_goals (unfold range; apply List.filter_congr; intro x _; simp only [inRange, belowUpper])
+
 /-- **reverse badger scan** (repaired code): exactly the in-range entries, descending. -/
 theorem BIter.scan_reverse {m : Map} (hs : Sorted m) (start : Bytes) (end_ : Option Bytes) :
     (BIter.mk' m start end_ true).scan = (range m start (effEnd start end_)).reverse := by
-  let it0 : BIter := { all := m, start := start, end_ := effEnd start end_, reverse := true, pos := none }
-  have hmk : BIter.mk' m start end_ true = it0.seekLast := by simp [BIter.mk', BIter.rewind, it0]
+  let it0 : BIter := { all := m, start := start, end_ := effEnd start end_, reverse := true, pos := none,
+                       fresh := false, done := false }
+  have hc0 : it0.Clean := ⟨rfl, rfl⟩
+  have hrw : (BIter.mk' m start end_ true).rewind.1 = it0.seekLast := rfl
   obtain ⟨hr1, ha1, hs1, he1⟩ := BIter.seekLast_fields it0
-  have hr1' : it0.seekLast.reverse = true := hr1
-  have hrw : it0.seekLast.rewind.1 = it0.seekLast.seekLast := by
-    unfold BIter.rewind; rw [hr1']; rfl
-  obtain ⟨hr2, ha2, hs2, he2⟩ := BIter.seekLast_fields it0.seekLast
-  have hall : it0.seekLast.all = m := ha1
-  have hsorted : Sorted it0.seekLast.all := by rw [hall]; exact hs
-  unfold BIter.scan
-  rw [hmk, hrw]
-  -- what remains after the second seekLast, filtered by Valid, is the reversed range
-  have key : it0.seekLast.seekLast.PosOK ∧
-      it0.seekLast.seekLast.restR.takeWhile (fun e => keyOK start (effEnd start end_) e.1)
-        = (range m start (effEnd start end_)).reverse := by
-    cases hend : effEnd start end_ with
-    | none =>
-      have hend' : it0.seekLast.end_ = none := by rw [he1]; exact hend
-      have hsl : it0.seekLast.seekLast = it0.seekLast.bSeek [] := BIter.seekLast_none hend'
-      obtain ⟨hr, hok⟩ := BIter.bSeek_nil_restR (it := it0.seekLast) hr1'
-      rw [hsl, hr, hall]
-      refine ⟨hok, ?_⟩
-      have : (fun e : Entry => keyOK start none e.1) = (fun x => ble start x.1) := by
-        funext x; simp [keyOK, checkKey, belowUpper]
-      rw [this, reverse_takeWhile_ge hs]
-      congr 1
-      unfold range
-      apply List.filter_congr
-      intro x _; simp [inRange, belowUpper]
-    | some e =>
-      have hend' : it0.seekLast.end_ = some e := by rw [he1]; exact hend
-      by_cases hee : e.isEmpty = true
-      · -- an explicit empty (non-nil) end bound: nothing is below it
-        have he0 : e = [] := List.isEmpty_iff.mp hee
-        subst he0
-        have hfalse : ∀ k, keyOK start (some []) k = false := by
-          intro k; simp [keyOK, belowUpper]
-        have hrange : range m start (some []) = [] := by
-          unfold range
-          apply List.filter_eq_nil_iff.mpr
-          intro x _; simp [inRange, belowUpper]
-        rw [hrange]
-        have hok : it0.seekLast.seekLast.PosOK := by
-          obtain ⟨_, hokn⟩ := BIter.bSeek_nil_restR (it := it0.seekLast) hr1'
-          have hsl : it0.seekLast.seekLast = it0.seekLast.bSeek []
-              ∨ it0.seekLast.seekLast = (it0.seekLast.bSeek []).uNext := by
-            rw [BIter.seekLast_some hend']
-            cases (it0.seekLast.bSeek []).cur with
-            | none => exact Or.inl rfl
-            | some c =>
-              by_cases hc : c.1 = []
-              · exact Or.inr (if_pos hc)
-              · exact Or.inl (if_neg hc)
-          rcases hsl with h | h
-          · rw [h]; exact hokn
-          · rw [h]
-            exact (BIter.uNext_restR (it := it0.seekLast.bSeek [])
-              (by rw [(BIter.bSeek_fields _ _).1]; exact hr1') hokn).2.1
-        refine ⟨hok, ?_⟩
-        cases it0.seekLast.seekLast.restR with
-        | nil => rfl
-        | cons a L => simp [List.takeWhile_cons, hfalse]
-      · have hee' : e.isEmpty = false := by simpa using hee
-        obtain ⟨hr, hok⟩ := BIter.seekLast_restR_some (it := it0.seekLast) hr1' hsorted hend' hee'
-        refine ⟨hok, ?_⟩
-        rw [hr, hall]
-        have hF : Sorted (m.filter (fun x => blt x.1 e)) := hs.filter _
-        have hcongr : ((m.filter (fun x => blt x.1 e)).reverse).takeWhile (fun x => keyOK start (some e) x.1)
-            = ((m.filter (fun x => blt x.1 e)).reverse).takeWhile (fun x => ble start x.1) := by
-          apply takeWhile_congr_mem
-          intro x hx
-          have hlt : blt x.1 e = true := (List.mem_filter.mp (List.mem_reverse.mp hx)).2
-          simp [keyOK, checkKey, belowUpper, hlt, ble_of_blt hlt]
-        rw [hcongr, reverse_takeWhile_ge hF, List.filter_filter]
-        congr 1
-        all_goals (unfold range; apply List.filter_congr; intro x _; simp only [inRange, belowUpper])
-  have hlen : it0.seekLast.seekLast.restR.length ≤ it0.seekLast.all.length + 1 := by
-    have : it0.seekLast.seekLast.restR.length ≤ it0.seekLast.seekLast.all.length := by
+  obtain ⟨hok, hwalk⟩ := BIter.seekLast_walk (it := it0) rfl hs
+  have hlen : it0.seekLast.restR.length ≤ (BIter.mk' m start end_ true).all.length + 1 := by
+    have : it0.seekLast.restR.length ≤ it0.seekLast.all.length := by
       unfold BIter.restR
-      cases it0.seekLast.seekLast.pos with
+      cases it0.seekLast.pos with
       | none => simp
       | some i => simp [List.length_take]; omega
-    rw [ha2] at this
+    rw [ha1] at this
+    show _ ≤ m.length + 1
+    have h2 : it0.all.length = m.length := rfl
     omega
-  rw [BIter.drain_reverse (by rw [hr2]; exact hr1') key.1 hlen, hs2, he2, hs1, he1]
-  exact key.2
+  unfold BIter.scan
+  rw [hrw, BIter.drain_reverse hr1 (BIter.seekLast_clean hc0) hok hlen, hs1, he1]
+  exact hwalk
 
 end C06
